@@ -10,7 +10,7 @@ HARNESSES = [
     ("crypto/storage/fs", ["crypto/storage/fs/zz_verif_c03_test.go"], "c03fs"),
     ("crypto/storage/vault", ["crypto/storage/vault/zz_verif_c03_test.go"], "c03vault"),
     ("crypto", ["crypto/zz_verif_c03_test.go"], "c03ks"),
-    ("crypto/api/v1", ["crypto/api/v1/zz_verif_c03_test.go"], "c03api"),
+    ("crypto/api/v1", ["crypto/api/v1/zz_verif_c03_test.go", "crypto/api/v1/zz_verif_c03b_test.go"], "c03api"),
 ]
 PKG, HARNESS = HARNESSES[2][0], HARNESSES[2][1]
 PARTS = {"c03fs": "fs", "c03vault": "vault", "c03ks": "ks", "c03api": "api"}
@@ -28,6 +28,9 @@ REQUIRED = [
     "fact_fs_path_construction", "fact_vault_path_construction", "fact_vault_methods_use_key_path", "fact_vault_path_name", "fact_every_backend_wrapped",
     "fact_new_key_name_is_uuid_and_validate_shape", "fact_key_lookups", "fact_store_key_types_are_signers",
     "fact_signjws_sequence", "fact_inventory_nontrivial",
+    # deepening round: REST wrapper composed with the key store (NutsProofs.Props.C03Api)
+    "fact_api_validate_checks", "fact_api_status_table", "fact_api_handler_steps", "api_signjws_200_only_by_key_id",
+    "api_signjwt_200_only_by_key_id", "api_unknown_kid_is_400", "api_invalid_request_independent_of_store", "api_decrypt_200_only_by_key_id",
 ]
 
 STORE_KEY_JWKS = {"ecPriv", "ec384Priv", "rsaPriv", "edPriv"}   # JWK kinds of the key types a key store can hold
@@ -62,7 +65,7 @@ def go_clean(p: bytes) -> bytes:
 def run(ctx):
     ctx.level = "partial"
     ctx.facts()
-    thms = ctx.build_and_audit(["NutsProofs.Props.C03"])
+    thms = ctx.build_and_audit(["NutsProofs.Props.C03", "NutsProofs.Props.C03Api"])
     for r in REQUIRED:
         if not any(t.endswith("Props." + r) for t in thms):
             ctx.oblige("thm-present:" + r, False, "theorem missing or its module does not build")
@@ -128,7 +131,9 @@ def run(ctx):
                               + "; ".join(can.get("tokens_not_bound_examples") or []), "api-token-binding.txt", json.dumps(can.get("tokens_not_bound_examples")))
             ctx.oblige("oracle:api-tokens-bound-to-requested-kid(impl)", not can.get("tokens_not_bound_to_requested_kid"), str(can.get("tokens_not_bound_to_requested_kid")))
             ctx.oblige("exploration:api-tour-no-hit", not hits and not can.get("sign_jws_200_with_private_jwk_object"), f"{len(hits)} hits")
-            continue
+            if not os.path.exists(os.path.join(out, "api_ops.jsonl")):
+                ctx.oblige("harness-runs:api-model-leg", False, "api_ops.jsonl missing")
+                continue
         ops_p, impl_p, model_p = (os.path.join(out, f"{part}_{x}") for x in ("ops.jsonl", "impl.out", "model.out"))
         ok, err = ctx.model("C03", ops_p, model_p)
         ctx.oblige(f"model-driver-runs:{part}", ok, err[-500:])
@@ -413,6 +418,91 @@ def run(ctx):
         else:
             ctx.oblige("exploration:canary-scan-ran", False, "ks_canary.json missing")
 
+
+    # ------------------------------------------------------------------ REST wrapper (modelled leg)
+    if "api" in outs:
+        ops, impl, model, bad, out = outs["api"]
+        total += len(impl)
+        kinds = Counter()
+        outcomes = Counter()
+        seq_start = 0
+        bound, key_of, relinked = set(), {}, set()
+        api_bad = 0
+        for i, line in enumerate(impl):
+            op = json.loads(ops[i]) if i < len(ops) and ops[i] else {}
+            k = op.get("op")
+            kinds[k] += 1
+            distinct.add(("api", k, op.get("body") or json.dumps([op.get(x) for x in ("kid", "keyName", "hkid", "encFor", "msg", "messageF", "receiver", "receiverF", "headersF", "payloadF", "hdr")]), i - seq_start if k in ("apikey", "apilink") else 0))
+            seq = "\n".join(ops[seq_start:i + 1])
+            if "panic:" in line or " -1 " in line:
+                found_violation |= ctx.violation("C03:api:panic", line[:200], "api-panic.jsonl", seq)
+            if k == "reset":
+                seq_start, bound, key_of, relinked = i, set(), {}, set()
+                continue
+            if k == "apikey":
+                m = re.match(r"apikey ok kid=(.*) key=K(\d+)$", line)
+                if m:
+                    bound.add(op.get("kid"))
+                    key_of[op.get("kid")] = int(m.group(2))
+                continue
+            if k == "apilink":
+                if line == "apilink ok":
+                    bound.add(op.get("kid"))
+                    relinked.add(op.get("kid"))
+                continue
+            ms = re.match(r"\S+ (\d+)", line)
+            status = int(ms.group(1)) if ms else -1
+            outcomes[f"{k}:{status}"] += 1
+            f = {x.get("n"): x.get("f") for x in op.get("flds") or []}
+            if k in ("apisignjws", "apisignjwt"):
+                must_refuse = f.get("Kid") != "present" or (k == "apisignjws" and (f.get("Headers") in ("absent", "null") or f.get("Payload") in ("absent", "null"))) \
+                    or (k == "apisignjwt" and f.get("Claims") != "present")
+                if status == 200:
+                    mt = re.match(r"\S+ 200 key=(\S+) kid=(.*) jwk=(\S+) names=\[(.*)\]$", line)
+                    why = None
+                    if must_refuse:
+                        why = "request-without-kid-or-required-field-was-signed"
+                    elif op.get("kid") not in bound:
+                        why = "signed-for-a-kid-without-key-reference"
+                    elif not mt:
+                        why = "token-not-parseable"
+                    elif mt.group(2) != op.get("kid"):
+                        why = "kid-header-differs-from-requested-kid"
+                    elif mt.group(3) != "-":
+                        why = "jwk-header-in-token-signed-through-the-REST-api"
+                    elif not re.fullmatch(r"K\d+", mt.group(1)):
+                        why = "token-does-not-verify-with-exactly-one-key"
+                    elif op.get("kid") in key_of and op.get("kid") not in relinked and mt.group(1) != "K%d" % key_of[op["kid"]]:
+                        why = "token-not-signed-by-the-key-published-for-kid"
+                    if why:
+                        api_bad += 1
+                        found_violation |= ctx.violation(f"C03:api:{k[3:]}:{why}", f"POST {k[3:]} body {op.get('body', '')[:300]} -> {line[:200]}", f"api-{k[3:]}.jsonl", seq)
+                elif must_refuse and status != 400:
+                    api_bad += 1
+                    found_violation |= ctx.violation(f"C03:api:{k[3:]}:invalid-request-not-answered-400", f"body {op.get('body', '')[:300]} -> {line[:200]}", f"api-{k[3:]}-validate.jsonl", seq)
+                elif not must_refuse and op.get("kid") not in bound and not (status == 400 and "private key not found" in line):
+                    api_bad += 1
+                    found_violation |= ctx.violation(f"C03:api:{k[3:]}:unknown-kid-not-answered-400-private-key-not-found", f"body {op.get('body', '')[:300]} -> {line[:200]}", f"api-{k[3:]}-unknown.jsonl", seq)
+            elif k == "apidecrypt":
+                if status == 200:
+                    why = None
+                    if f.get("Message") != "present" or op.get("msg") != "jwe":
+                        why = "decrypted-a-message-that-is-no-jwe"
+                    elif op.get("hkid") not in bound:
+                        why = "decrypted-for-a-kid-without-key-reference"
+                    elif line != "apidecrypt 200 key=K%d" % op.get("encFor", -1):
+                        why = "plaintext-not-the-one-encrypted-for-that-key"
+                    elif op.get("hkid") in key_of and op.get("hkid") not in relinked and key_of[op["hkid"]] != op.get("encFor"):
+                        why = "decrypted-with-another-key-than-the-kid's"
+                    if why:
+                        api_bad += 1
+                        found_violation |= ctx.violation(f"C03:api:decrypt_jwe:{why}", f"{ops[i][:300]} -> {line[:200]}", "api-decrypt.jsonl", seq)
+            elif k == "apiencval":
+                if "HANDLER-DIFFERS" in line or "DOES-NOT-DECODE" in line:
+                    found_violation |= ctx.violation("C03:api:encrypt_jwe:handler-and-validate-disagree", line[:300], "api-encval.jsonl", seq)
+        ctx.oblige("oracle:api-200-only-by-bound-kid-with-requested-kid-header-no-jwk(impl)", api_bad == 0, f"{api_bad}")
+        dist["rest_wrapper"] = {"ops": dict(kinds), "outcomes": dict(outcomes)}
+
     # ------------------------------------------------------------------ correspondence
     nbad = 0
     for part, (ops, impl, model, bad, out) in outs.items():
@@ -425,7 +515,7 @@ def run(ctx):
             if not found_violation:
                 # replay: the sequence the differing op belongs to (key store) or the op alone
                 k = i
-                if part == "ks":
+                if part in ("ks", "api"):
                     while k > 0 and '"op":"reset"' not in ops[k]:
                         k -= 1
                 rp = os.path.join(ctx.replay_dir(), f"correspondence-{part}.jsonl")
